@@ -584,7 +584,7 @@ pub fn run(part: &mut Part) {
             let mut seeds = vec![seed_empty(), seed_ab(), seed_two_files(), seed_recreated(), seed_recreated_from_zero(), seed_gc_ready()];
             seeds.extend(cursor_seeds(&[0, 1], &[0, 7, 8]));
             let seeds = thin(seeds, 2, q);
-            let profiles = vec![prof("seeds x (A_write + frame-shaped payload)", seeds, alpha.clone(), if TINY { if q { 1 } else { 2 } } else { 1 }), all_seeds_prof(alpha, 1, q)];
+            let profiles = vec![prof("seeds x (A_write + frame-shaped payload)", seeds, alpha, if TINY { if q { 1 } else { 2 } } else { 1 }), all_seeds_prof(vec![Op::app(QA, Pos::Auto, Sz::S3), Op::app(QA, Pos::Auto, Sz::Emb), Op::app(QB, Pos::Auto, Sz::L), Op::Trunc { q: QA, at: Tr::Last }], 1, q)];
             let descr: Vec<_> = profiles.iter().map(|p| p.describe()).collect();
             let stats = explore(&profiles, part.seed, |env, leaf| crate::damage::c08_leaf(env, leaf));
             part.stats.merge(stats);
@@ -598,7 +598,7 @@ pub fn run(part: &mut Part) {
             seeds.extend(cursor_seeds(&[0, 3], &[0, 6, 7, 8]));
             let mut alpha = a_write();
             alpha.push(Op::Trunc { q: QA, at: Tr::Beyond });
-            let profiles = vec![prof("seeds x A_write", seeds, alpha.clone(), if TINY { if q { 2 } else { 3 } } else if q { 1 } else { 2 }), all_seeds_prof(alpha, 1, q)];
+            let profiles = vec![prof("seeds x A_write", seeds, alpha, if TINY { if q { 2 } else { 3 } } else if q { 1 } else { 2 }), all_seeds_prof(vec![Op::app(QA, Pos::Auto, Sz::S3), Op::app(QB, Pos::Auto, Sz::L), Op::Trunc { q: QA, at: Tr::Last }, Op::Delete(QA)], 1, q)];
             let descr: Vec<_> = profiles.iter().map(|p| p.describe()).collect();
             let stats = explore(&profiles, part.seed, |env, leaf| crate::damage::c09_leaf(env, leaf));
             part.stats.merge(stats);
